@@ -679,9 +679,16 @@ Definition action_span (fixed_aspan : bool) (src : str) (pos_action_start : nat)
     mk_span (pos_action_start + lead) (pos_action_start + lead + byte_len a)
   else mk_span pos_action_start (pos_action_start + byte_len a).
 
+(* the production end recorded at an action's opening brace (position i).  Pinned code:
+   pos_prod_end = Some(i);  repaired (/repo 69c4b9b): pos_prod_end.get_or_insert(i) *)
+Definition brace_pend (fixed_pspan : bool) (pend : option nat) (i : nat) : option nat :=
+  if fixed_pspan then match pend with Some e => Some e | None => Some i end else Some i.
+
 Section Parser.
 Variable fixed : bool.        (* proposed repair of the block-comment scan *)
 Variable fixed_aspan : bool.  (* proposed repair of the action span: skip the blanks after the brace *)
+Variable fixed_pspan : bool.  (* repair of the production span (/repo 69c4b9b): the action's brace ends the span
+                                 only when nothing was recorded before: pos_prod_end.get_or_insert(i) *)
 Variable kind : ykind.     (* self.yacc_kind *)
 Variable src : str.
 Variable len : nat.
@@ -1037,7 +1044,7 @@ Fixpoint rule_loop (f : nat) (st : pst) (rn : str) (i : nat) (syms : list symbol
         bind st, t1 <- look st kw_bar i';
         bind st, t2 <- (if is_some t1 then ret st t1 else look st kw_semi i');
         if negb (is_some t2) then fail st ProductionNotTerminated i'
-        else next st i' syms prec (Some (a, asp)) (Some i)
+        else next st i' syms prec (Some (a, asp)) (brace_pend fixed_pspan pend i)
       else
       bind st, la <- look st kw_empty i;
       match la with
@@ -1205,9 +1212,10 @@ Fixpoint validate_rules (a : gast) (rs : list rule) : outcome (option yerr) :=
       match e with Some e => Done (Some e) | None => validate_rules a rest end
   end.
 
-(* the implementation iterates a HashMap here: it reports SOME %epp key that is
-   neither a token nor an implicit token; the mirror (and the canonicalising
-   harness) take the one declared first *)
+(* the implementation (since /repo 3e32e4e) filters its epp HashMap for the keys that are neither
+   tokens nor implicit tokens and reports the one with the smallest key span, i.e. the one declared
+   first; [a_epp] is kept in declaration order (a duplicate key is a DuplicateEPP error, never a
+   second entry), so that is the first unknown entry of the list *)
 Fixpoint first_unknown_epp (a : gast) (l : list (str * (span * (str * span)))) : option yerr :=
   match l with
   | [] => None
@@ -1315,14 +1323,15 @@ Inductive top :=
 
 Definition fuel_for (src : str) : nat := S (byte_len src).
 
-Definition yacc_new_gen (fixed fixed_aspan : bool) (fuel : nat) (kind : ykind) (src : str) : outcome top :=
+Definition yacc_new_gen (fixed fixed_aspan fixed_pspan : bool) (fuel : nat) (kind : ykind) (src : str) : outcome top :=
   if header_present src then Done THeader else
-  do r <- parse fixed fixed_aspan kind src (byte_len src) fuel;
+  do r <- parse fixed fixed_aspan fixed_pspan kind src (byte_len src) fuel;
   let '(st, es) := r in
   do v <- complete_and_validate (ast st);
   Done (TResult (ast st) (es ++ match v with Some e => [e] | None => [] end) (warnings (ast st))).
 
-(* the code as it is *)
-Definition yacc_new := yacc_new_gen false false.
-Definition run_case (fixed fixed_aspan : bool) (kind : ykind) (src : str) : outcome top :=
-  yacc_new_gen fixed fixed_aspan (fuel_for src) kind src.
+(* the code as it is (/repo: block-comment scan bd895aa and production span 69c4b9b repaired,
+   action span not) *)
+Definition yacc_new := yacc_new_gen true false true.
+Definition run_case (fixed fixed_aspan fixed_pspan : bool) (kind : ykind) (src : str) : outcome top :=
+  yacc_new_gen fixed fixed_aspan fixed_pspan (fuel_for src) kind src.
